@@ -1,6 +1,7 @@
 import FranzVerif.Model.Commit
 import FranzVerif.Proof.Commit
 import FranzVerif.Proof.CommitInv
+import FranzVerif.Proof.CommitReport
 /-! C09 — offset commits take effect in the order issued. Theorems over ALL accepted histories of
 `Model.Commit`; the tie is the history correspondence of the `cmt` scenarios.
 
@@ -246,5 +247,64 @@ example : accepts
 example : accepts
     [.issue 3 [(0, 1003)], .wireReq 2 0 1003, .wireResp 2 0 0, .finish 3 true,
      .clientCommitted 0 0, .groupCommitted 0 1003, .quiesce] = false := by decide
+
+
+/-! ### what a commit reports (second monitor, `Model.CommitReport`) -/
+
+/-- A commit that reports success to the application was answered with success, as the client saw the answer on
+the wire, for every partition it named: for each `(partition, offset)` of the commit there is a request that
+carried exactly that offset for that partition to the coordinator and whose answer for that partition was shown
+to the client without an error. So "the last successful commit" the application knows of is one the coordinator
+acknowledged (`final_offsets_are_last_successful_commit` then says the final offsets are those values). -/
+theorem reported_success_was_answered_successfully (h₁ h₂ : List Model.CommitReport.Ev) (k : Nat)
+    (hacc : Model.CommitReport.accepts (h₁ ++ Model.CommitReport.Ev.finish k true :: h₂) = true) :
+    ∃ offs, Model.CommitReport.Ev.issue k offs ∈ h₁ ∧
+      ∀ o ∈ offs, ∃ n, Model.CommitReport.Ev.wireReq n o.1 o.2 ∈ h₁ ∧ Model.CommitReport.Ev.wireResp n o.1 0 ∈ h₁ := by
+  unfold Model.CommitReport.accepts at hacc
+  obtain ⟨s, hs⟩ := Option.isSome_iff_exists.1 hacc
+  rw [Proof.CommitReport.run_append] at hs
+  cases h1 : Model.CommitReport.run {} h₁ with
+  | none => simp [h1] at hs
+  | some s₁ =>
+    simp only [h1, Option.bind_some, Model.CommitReport.run] at hs
+    have hi : Proof.CommitReport.Inv h₁ s₁ := by simpa using Proof.CommitReport.inv_run h₁ Proof.CommitReport.inv_init h1
+    unfold Model.CommitReport.step at hs
+    cases hc : Model.CommitReport.check s₁ (.finish k true) with
+    | some r => simp [hc] at hs
+    | none =>
+      simp only [Model.CommitReport.check] at hc
+      cases ho : Model.CommitReport.offsOf s₁ k with
+      | none => simp [ho] at hc
+      | some offs =>
+        simp only [ho] at hc
+        split at hc
+        · rename_i hall
+          unfold Model.CommitReport.offsOf at ho
+          cases hf : s₁.issued.find? (·.1 == k) with
+          | none => simp [hf] at ho
+          | some i =>
+            simp only [hf, Option.map_some, Option.some.injEq] at ho
+            have hik : i.1 = k := by simpa using List.find?_some hf
+            have hmem := hi.issued i (List.mem_of_find?_eq_some hf)
+            refine ⟨offs, by rw [← ho, ← hik]; exact hmem, ?_⟩
+            intro o hoo
+            rw [List.all_eq_true] at hall
+            have := hall o hoo
+            exact hi.okd o (by simpa using this)
+        · cases hc
+
+/-- Non-vacuity and both directions on concrete histories: commit 1 names partitions 0 and 1; request 7 carries both,
+partition 1 is answered with COORDINATOR_LOAD_IN_PROGRESS (14) and answered with success only in the retry
+(request 8); reporting success after that is accepted, reporting success before the retry's answer is refused,
+reporting an error is always accepted. -/
+example : Model.CommitReport.accepts
+    [.issue 1 [(0, 1001), (1, 1001)], .wireReq 7 0 1001, .wireReq 7 1 1001, .wireResp 7 0 0, .wireResp 7 1 14,
+     .wireReq 8 0 1001, .wireReq 8 1 1001, .wireResp 8 0 0, .wireResp 8 1 0, .finish 1 true] = true := by decide
+example : Model.CommitReport.accepts
+    [.issue 1 [(0, 1001), (1, 1001)], .wireReq 7 0 1001, .wireReq 7 1 1001, .wireResp 7 0 0, .wireResp 7 1 14,
+     .finish 1 true] = false := by decide
+example : Model.CommitReport.accepts
+    [.issue 1 [(0, 1001), (1, 1001)], .wireReq 7 0 1001, .wireReq 7 1 1001, .wireResp 7 0 14, .wireResp 7 1 14,
+     .finish 1 false] = true := by decide
 
 end Props.C09
